@@ -143,3 +143,53 @@ func TestSyncMapRangeOrder(t *testing.T) {
 		t.Fatalf("canonical order expected, got %v", got)
 	}
 }
+
+func TestRWMutexPendingWriterBlocksReaders(t *testing.T) {
+	// reader holds the read lock, a writer arrives, the reader read-locks again: Go deadlocks
+	var rw sync.RWMutex
+	res := Run(Config{Budget: 100000, Chooser: &RoundRobin{Quantum: 1}}, func() {
+		RLock(&rw, 1)
+		Go(2, func() {
+			Lock(&rw, 3)
+			Unlock(&rw, 4)
+		})
+		for i := 0; i < 20; i++ {
+			Yield(5) // the writer gets to its Lock and waits
+		}
+		RLock(&rw, 6)
+		RUnlock(&rw, 7)
+		RUnlock(&rw, 8)
+	})
+	if !res.Deadlock {
+		t.Fatalf("a recursive read lock across a waiting writer must deadlock: %+v", res)
+	}
+}
+
+func TestCondWaitAbortKeepsLockDiscipline(t *testing.T) {
+	// a lost signal: the waiter is aborted at the end of the run; its deferred Unlock must not be fatal
+	var mu sync.Mutex
+	c := sync.NewCond(&mu)
+	res := Run(Config{Budget: 100000}, func() {
+		Go(1, func() {
+			Lock(&mu, 2)
+			defer Unlock(&mu, 3)
+			CondWait(c)
+		})
+		Idle()
+	})
+	if len(res.Leaks) != 1 && !res.Deadlock {
+		t.Fatalf("%+v", res)
+	}
+}
+
+func TestAfterFuncCallbackThatBlocksIsLeftBehind(t *testing.T) {
+	var leaks []LeakInfo
+	Run(Config{Budget: 100000}, func() {
+		ch := make(chan int)
+		AfterFunc(time.Millisecond, func() { Send(ch, 1, 9) }) // nobody receives
+		leaks = Idle()
+	})
+	if len(leaks) != 1 {
+		t.Fatalf("leaks=%+v", leaks)
+	}
+}
